@@ -784,7 +784,7 @@ def step_strategy(gc=True, clock_ticks="forward", props_ops=True, open_txn=True)
     return st.one_of(*weighted)
 
 
-def _macros(gc=True):
+def _macros(gc=True, back=False):
     """Multi-step idioms that random single steps rarely line up: a multi-file commit, a partial delete (manifest rewritten with
     EXISTING-only entries), removal of the snapshot that originally added the files, then (optionally) ageing + collection."""
     tail = [{"op": "age", "s": 7200}, {"op": "gc", "grace_ms": 0}] if gc else []
@@ -796,10 +796,17 @@ def _macros(gc=True):
         [{"op": "append", "n": 1}, {"op": "txn", "appends": [1, 1], "delete": [0], "expire": ("future", 0)}] + tail,
         [{"op": "append", "n": 1}, {"op": "reappend_file", "pick": 0}, {"op": "append", "n": 1}, {"op": "delete_files", "pick": [0], "slash": False, "ghost": False}] + tail,
         [{"op": "append_twins"}, {"op": "append", "n": 1}, {"op": "delete_files", "pick": [0], "slash": True, "ghost": False}] + tail,
-    ] + ([[{"op": "append_markers_left", "n": 1}, {"op": "append", "n": 1}, {"op": "age", "s": 90000}, {"op": "gc", "grace_ms": 3600000}, {"op": "append", "n": 1}]] if gc else []))
+    ] + ([[{"op": "append_markers_left", "n": 1}, {"op": "append", "n": 1}, {"op": "age", "s": 90000}, {"op": "gc", "grace_ms": 3600000}, {"op": "append", "n": 1}]] if gc else [])
+      + ([
+          # retention trimming while the wall clock stepped back between commits (timestamp order != commit order), then the current snapshot goes
+          [{"op": "set_prop", "key": RETENTION, "value": "3"}, {"op": "append", "n": 1}, {"op": "tick", "ms": 50}, {"op": "append", "n": 1}, {"op": "tick", "ms": -120},
+           {"op": "append", "n": 1}, {"op": "tick", "ms": 5}, {"op": "append", "n": 1}, {"op": "delete_snapshot", "which": "current"}],
+          [{"op": "append", "n": 1}, {"op": "tick", "ms": 40}, {"op": "append", "n": 1}, {"op": "tick", "ms": -200}, {"op": "append", "n": 1}, {"op": "set_prop", "key": RETENTION, "value": "2"},
+           {"op": "append", "n": 1}, {"op": "delete_snapshot", "which": "current"}, {"op": "delete_snapshot", "which": "current"}],
+      ] if back else []))
 
 
 def history_strategy(max_steps=25, **kw):
     single = step_strategy(**kw).map(lambda s_: [s_])
-    chunks = st.lists(st.one_of(single, single, single, single, single, single, single, _macros(gc=kw.get("gc", True))), min_size=3, max_size=max_steps)
+    chunks = st.lists(st.one_of(single, single, single, single, single, single, single, _macros(gc=kw.get("gc", True), back=kw.get("clock_ticks") == "any")), min_size=3, max_size=max_steps)
     return chunks.map(lambda cs: [s_ for c in cs for s_ in c][: max_steps + 6])
